@@ -3,6 +3,7 @@ package rules
 import (
 	"fmt"
 	"go/ast"
+	"go/token"
 	"go/types"
 	"sort"
 	"strings"
@@ -753,6 +754,26 @@ func procedureSameFn(c *core.Ctx) {
 						rhs := astx.Unparen(as.Rhs[i])
 						if _, isConst := astx.ConstString(info, rhs); isConst {
 							continue // a constant carries nothing of the argument
+						}
+						// a concatenation of constants and segment variables ("/" + pkg + "/" + method kept in a local)
+						if b, isBin := rhs.(*ast.BinaryExpr); isBin && b.Op == token.ADD {
+							var cat func(e ast.Expr) bool
+							cat = func(e ast.Expr) bool {
+								e = astx.Unparen(e)
+								if _, ok := astx.ConstString(info, e); ok {
+									return true
+								}
+								if bb, ok := e.(*ast.BinaryExpr); ok && bb.Op == token.ADD {
+									return cat(bb.X) && cat(bb.Y)
+								}
+								if vo, ok := astx.ObjOf(info, e).(*types.Var); ok && types.Object(vo) != arg && types.Object(vo) != o {
+									return segmentVarDepth(vo, depth+1)
+								}
+								return false
+							}
+							if cat(rhs) {
+								continue
+							}
 						}
 						if ro := astx.ObjOf(info, rhs); ro != nil && ro != arg && ro != o {
 							if _, isVar := ro.(*types.Var); isVar && segmentVarDepth(ro, depth+1) {
